@@ -213,6 +213,16 @@ pub fn gen_object(rng: &mut Rng, idx: usize, sender: &SenderSpec, max_symbols: u
     if rng.chance(0.3) {
         o.etag = Some(format!("etag-{}-{}", idx, rng.pick(&HOSTILE_STRINGS)));
     }
+    // a paced object now and then (target acquisition): a deadline already past, a zero duration, a few milliseconds
+    if rng.chance(0.05) {
+        o.target = Some(match rng.below(5) {
+            0 => TargetSpec::Fast,
+            1 => TargetSpec::DurationMs(*rng.pick(&[0u64, 1, 5, 20])),
+            2 => TargetSpec::AtMs(T0_MS - rng.range(1, 10_000)),
+            3 => TargetSpec::AtMs(T0_MS + rng.range(0, 30)),
+            _ => TargetSpec::DurationMs(rng.range(1, 40)),
+        });
+    }
     if rng.chance(0.05) {
         o.optel = Some(("traceparent".to_string(), format!("00-{:032x}-{:016x}-01", rng.next_u64() as u128 * 7919, rng.next_u64())));
     }
@@ -223,7 +233,13 @@ pub fn gen_object(rng: &mut Rng, idx: usize, sender: &SenderSpec, max_symbols: u
                 // handed over at a non-zero position; short reads
                 SourceSpec::StreamAt(if rng.chance(0.5) { ReadSched::Full } else { ReadSched::Fixed(*rng.pick(&[3usize, 64, 1000])) }, *rng.pick(&[1u32, 500, 1000]))
             } else {
-                SourceSpec::Stream(ReadSched::Full)
+                // full reads, short reads, reads interrupted by a signal (EINTR: retried)
+                match rng.below(6) {
+                    0 => SourceSpec::Stream(ReadSched::Fixed(*rng.pick(&[1usize, 3, 64, 1000]))),
+                    1 => SourceSpec::Stream(ReadSched::Interrupted { chunk: *rng.pick(&[1usize, 7, 64, 4096]), every: rng.range(2, 10) as u32 }),
+                    2 => SourceSpec::Stream(ReadSched::Random { seed: rng.next_u64(), max: *rng.pick(&[10usize, 100, 5000]) }),
+                    _ => SourceSpec::Stream(ReadSched::Full),
+                }
             }
         }
         17..=18 => SourceSpec::File,
